@@ -246,6 +246,16 @@ fn gen_i32(t: &mut Tape, positive: bool) -> i32 {
 }
 
 fn gen_edit(t: &mut Tape) -> Edit {
+    // scale (about 0.3 % of the edits): a value that makes its encoded line 4 K .. 200 K characters long
+    if t.chance(1) && t.chance(30) {
+        use crate::gen::doc::{long_fill, long_len};
+        let n = long_len(t);
+        return match t.below(3) {
+            0 => Edit::Text(*t.pick(&["tags", "title_unicode", "source", "creator"]), long_fill(t, n).trim().to_string()),
+            1 => Edit::Bookmarks((0..n / 8 + 1).map(|i| 1_000_000 + (i as i32) * 7).collect()),
+            _ => Edit::AudioFile(format!("{}.mp3", long_fill(t, n).trim())),
+        };
+    }
     match t.below(16) {
         0..=2 => Edit::Text(*t.pick(&["title", "title_unicode", "artist", "artist_unicode", "creator", "version", "source", "tags"]), gen_free_text(t)),
         3 => Edit::AudioFile(gen_file_name(t, false)),
@@ -403,6 +413,9 @@ pub fn run(ctx: &mut Ctx) {
         st.eval();
         for e in &c.edits {
             st.label(&format!("edit:{}", e.name()));
+            if matches!(e, Edit::Text(_, v) | Edit::AudioFile(v) if v.len() > 4000) || matches!(e, Edit::Bookmarks(v) if v.len() > 500) {
+                st.label("edit makes a very long line");
+            }
             if let Edit::Text(_, v) = e {
                 if v.contains(':') {
                     st.label("text value contains ':'");
